@@ -302,10 +302,23 @@ class Slicer:
             self.emit("%s    _ => {}" % indent, k)
         self.emit("%s}" % indent, k)
 
+    def _body_open(self, k, b):
+        """the `{` that opens the body of the `if` / `while` / `for` at token k: in `if let PAT = EXPR {` and
+        `for PAT in EXPR {` the pattern may itself contain braces (`Type::Fun { params, .. }`)"""
+        t = self.toks[k]
+        s = k + 1
+        if t.text in ("if", "while") and self.toks[k + 1].text == "let":
+            eq = self.find0(k + 2, b, lambda u: u.kind == "punct" and u.text == "=")
+            s = eq + 1 if eq is not None else s
+        elif t.text == "for":
+            kin = self.find0(k + 1, b, lambda u: u.kind == "ident" and u.text == "in")
+            s = kin + 1 if kin is not None else s
+        return self.find0(s, b, lambda u: u.text == "{")
+
     def control(self, k, b, indent):
         t = self.toks[k]
         if t.text == "if":
-            open_ = self.find0(k + 1, b, lambda u: u.text == "{")
+            open_ = self._body_open(k, b)
             c = self.close(open_)
             cs, ce = k + 1, open_
             if self.toks[cs].text == "let":
@@ -341,7 +354,7 @@ class Slicer:
             self.emit_arms(arms, k, indent)
             return c + 1
         if t.text in ("while", "for"):
-            open_ = self.find0(k + 1, b, lambda u: u.text == "{")
+            open_ = self._body_open(k, b)
             c = self.close(open_)
             if t.text == "for":
                 kin = self.find0(k + 1, open_, lambda u: u.kind == "ident" and u.text == "in")
